@@ -5,7 +5,7 @@ PROP = dict(
               "Shangrla.C10.sample_eq_sorted_union", "Shangrla.C10.continue_contains_prev",
               "Shangrla.C10.contest_data_eq_any_prev", "Shangrla.C10.data_extends",
               "Shangrla.C10.continue_eq_scratch_of_junkFree", "Shangrla.C10.step_eq", "Shangrla.C10.rounds_extend"],
-    groups={"sampling": (1500, 40000)},
+    groups={"sampling": (8000, 40000)},
     design_ref="DESIGN.md section 5, C10",
     partial="'measured risk is non-increasing from round to round' (risk_mono) is a statement about the statistical "
             "tests and is proved in the NonnegMean package, not here",
